@@ -398,7 +398,7 @@ def units_to_file(cases, path):
 
     evs = []
     for c in cases:
-        code = D.synth_code(c["units"], c.get("alt", False))
+        code = D.synth_code(c["units"], c.get("alt", False), c.get("scope") or "module")
         try:
             cd = CodeData.from_code(code)
         except BaseException as ex:  # noqa
